@@ -61,7 +61,7 @@ class History:
     def __init__(self, rng, cplx):
         self.rng = rng
         self.cplx = cplx
-        self.order = rng.randint(2, 3)
+        self.order = rng.choice([1, 2, 2, 2, 3, 3, 3, 3])       # order 1: single-core shortcuts of the solvers
         self.dims = [rng.choice([1, 2, 2, 3]) for _ in range(self.order)]
         self.pool = []
         self.shadow = []
@@ -322,8 +322,8 @@ OPS = {
     'squeeze': _un(10, lambda a, h: a.squeeze(), 'vec', 'misc'),
     'tt2qtt': _un(11, lambda a, h: a.tt2qtt([[d] for d in h.dims], [[1]] * h.order), 'vec', 'vec'),
     'qtt2tt': _un(12, lambda a, h: a.qtt2tt([1] * h.order), 'vec', 'vec'),
-    'svd': (13, lambda h: (lambda a: ([a], [(x, 'misc') for x in h.pool[a].t.svd(h.rng.randint(1, h.order - 1)) if isinstance(x, TT)], None))(h.pick('vec'))),
-    'pinv': (14, lambda h: (lambda a: ([a], [(h.pool[a].t.pinv(h.rng.randint(1, h.order - 1)), 'vec')], None))(h.pick('vec'))),
+    'svd': (13, lambda h: (lambda a: ([a], [(x, 'misc') for x in h.pool[a].t.svd(h.rng.randint(1, h.order - 1), ortho_l=h.rng.random() < 0.6, ortho_r=h.rng.random() < 0.6) if isinstance(x, TT)], None))(h.pick('vec'))),
+    'pinv': (14, lambda h: (lambda a: ([a], [(h.pool[a].t.pinv(h.rng.randint(1, h.order - 1), ortho_l=h.rng.random() < 0.6, ortho_r=h.rng.random() < 0.6), 'vec')], None))(h.pick('vec'))),
     'tensordot': (15, lambda h: _tensordot(h, False)),
     'tensordot_ow': (16, lambda h: _tensordot(h, True)),
     'concatenate': (17, lambda h: _concat(h, False, False)),
